@@ -186,3 +186,61 @@ def numeric_two_wavelets(rep, fnd, pid, tier):
                               % (wc, wr, wc, wr, err, bound, cfg), {"api": "DWTInverse(4-tuple)", "check": "two_wavelets", "cfg": cfg})
     rep.validated(n)
     rep.count("two_wavelet_numeric_comparisons", n)
+
+
+def functional_forms(rep, fnd, pid, tier):
+    """The functional one-level banks afb2d / sfb2d given the same four filters in every form they accept - raw arrays (list /
+    tuple), lists of floats, (L,1) column arrays, tensors as prepared by prep_filt_afb2d / prep_filt_sfb2d (list / tuple), flat
+    1-D tensors and (1,1,L) tensors of the prepared taps - against PyWavelets with one wavelet per axis."""
+    import pywt
+    from pytorch_wavelets.dwt import lowlevel as ll
+    dwtlib.f64()
+    rng = np.random.default_rng(18500 + seed())
+    pairs = [("db3", "db2"), ("db2", "db3"), ("bior2.2", "haar"), ("haar", "bior2.2"), ("sym4", "db2"), ("db3", "coif1")]
+    modes = ["zero", "symmetric", "periodization"] if tier == "quick" else ["zero", "symmetric", "reflect", "periodization"]
+    n = 0
+
+    def forms(c0, c1, r0, r1, analysis):
+        flip = (lambda v: np.array(v)[::-1].copy()) if analysis else (lambda v: np.array(v))
+        prep = ll.prep_filt_afb2d if analysis else ll.prep_filt_sfb2d
+        t = lambda v: torch.tensor(flip(v))   # noqa   prepared taps as a flat tensor
+        return [("arrays, list", [np.array(c0), np.array(c1), np.array(r0), np.array(r1)]),
+                ("arrays, tuple", (np.array(c0), np.array(c1), np.array(r0), np.array(r1))),
+                ("lists of floats", [list(c0), list(c1), list(r0), list(r1)]),
+                ("(L,1) arrays", [np.array(c0)[:, None], np.array(c1)[:, None], np.array(r0)[:, None], np.array(r1)[:, None]]),
+                ("prepared tensors, list", list(prep(c0, c1, r0, r1))),
+                ("prepared tensors, tuple", tuple(prep(c0, c1, r0, r1))),
+                ("flat 1-D tensors of the prepared taps", [t(c0), t(c1), t(r0), t(r1)]),
+                ("(1,1,L) tensors of the prepared taps", [t(c0).reshape(1, 1, -1), t(c1).reshape(1, 1, -1), t(r0).reshape(1, 1, -1), t(r1).reshape(1, 1, -1)])]
+    for wc, wr in pairs:
+        a, b = pywt.Wavelet(wc), pywt.Wavelet(wr)
+        for mode in modes:
+            H, W = int(rng.integers(max(a.dec_len, 4), 2 * a.dec_len + 8)), int(rng.integers(max(b.dec_len, 4), 2 * b.dec_len + 8))
+            x = rng.standard_normal((2, 2, H, W))
+            cA, (cH, cV, cD) = pywt.dwt2(x, (a, b), mode=mode, axes=(-2, -1))
+            want = np.stack([cA, cH, cV, cD], axis=2)
+            co = rng.standard_normal(want.shape)
+            wantx = pywt.idwt2((co[:, :, 0], (co[:, :, 1], co[:, :, 2], co[:, :, 3])), (a, b), mode=mode, axes=(-2, -1))
+            for (fname, fa), (_, fs) in zip(forms(a.dec_lo, a.dec_hi, b.dec_lo, b.dec_hi, True), forms(a.rec_lo, a.rec_hi, b.rec_lo, b.rec_hi, False)):
+                cfg = dict(col_wavelet=wc, row_wavelet=wr, mode=mode, H=H, W=W, filter_form=fname)
+                rep.validated()
+                rep.nontriv(("functional_form", wc, wr, mode, fname))
+                n += 1
+                try:
+                    y = ll.afb2d(torch.tensor(x), fa, mode=mode)
+                    y = y.reshape(2, 2, 4, y.shape[-2], y.shape[-1]).numpy()
+                    ea = np.abs(y - want).max() if y.shape == want.shape else np.inf
+                except Exception as e:   # noqa
+                    ea = "raises %r" % e
+                try:
+                    t_ = torch.tensor(co)
+                    z = ll.sfb2d(t_[:, :, 0], t_[:, :, 1], t_[:, :, 2], t_[:, :, 3], fs, mode=mode).numpy()
+                    es = np.abs(z - wantx).max() if z.shape == wantx.shape else np.inf
+                except Exception as e:   # noqa
+                    es = "raises %r" % e
+                for api, err in (("afb2d", ea), ("sfb2d", es)):
+                    if isinstance(err, str) or not err <= 1e-10:
+                        rep.violation("%s with column wavelet %s, row wavelet %s and the filters given as %s differs from PyWavelets with one wavelet per "
+                                      "axis (%s) at %s" % (api, wc, wr, fname, err if isinstance(err, str) else "max error %.3g" % err, cfg),
+                                      {"api": api, "check": "functional_forms", "cfg": cfg})
+    rep.count("functional_form_cases", n)
